@@ -572,6 +572,10 @@ func RunMapInitExpr(ctx *Task, expr *ast.MapLiteral) *errchain.PlError {
 // }
 
 func RunIndexExprGet(ctx *Task, expr *ast.IndexExpr) *errchain.PlError {
+	if expr.Obj == nil {
+		return NewRunError(ctx,
+			"index expression has no object", ast.NodeStartPos(ast.WrapIndexExpr(expr)))
+	}
 	key := expr.Obj.Name
 
 	varb, err := ctx.GetKey(key)
@@ -923,6 +927,9 @@ func RunAssignmentExpr(ctx *Task, expr *ast.AssignmentExpr) *errchain.PlError {
 	}
 
 	for i, e := range expr.LHS {
+		if e.NodeType == ast.TypeIndexExpr && e.IndexExpr().Obj == nil {
+			return NewRunError(ctx, "index expression has no object", e.StartPos())
+		}
 		switch expr.Op {
 		case ast.SUBEQ,
 			ast.ADDEQ,
